@@ -137,6 +137,10 @@ type analyzer struct {
 	named    []types.Type // named types of the packages and pointers to them
 	priv     *privacy     // call-private types and the locations that are local because of them (private.go)
 	globals  map[string]bool
+	// (C1) mutexes held at every call of a function all of whose calls are visible (callers.go)
+	entryHeld map[*ssa.Function]map[string]bool
+	// (C2) the function an unexported helper belongs to (callers.go)
+	anchor map[*fnInfo]*fnInfo
 }
 
 func (a *analyzer) qual(p *types.Package) string {
@@ -567,6 +571,9 @@ func (a *analyzer) lockStates(fn *ssa.Function) map[ssa.Instruction]string {
 		return nil
 	}
 	in[fn.Blocks[0]] = map[string]bool{}
+	for k := range a.entryHeld[fn] {
+		in[fn.Blocks[0]][k] = true // (C1) held at every call of fn
+	}
 	transfer := func(b *ssa.BasicBlock, st map[string]bool, rec map[ssa.Instruction]string) map[string]bool {
 		cur := map[string]bool{}
 		for k := range st {
@@ -941,36 +948,41 @@ func (a *analyzer) missRegion(fi *fnInfo, callee, keyCall string) map[*ssa.Basic
 func (a *analyzer) tag(cfg *Config) []int {
 	matched := make([]int, len(cfg.Allow))
 	for k, al := range cfg.Allow {
-		fi := a.byName[al.Func]
-		if fi == nil {
+		named := a.byName[al.Func]
+		if named == nil {
 			continue
 		}
 		var region map[*ssa.BasicBlock]bool
 		switch al.Kind {
 		case "region-after-nil-check":
-			region = a.missRegion(fi, al.AfterCall, "")
+			region = a.missRegion(named, al.AfterCall, "")
 		case "region-after-lookup-miss":
-			region = a.missRegion(fi, "", al.KeyCall)
+			region = a.missRegion(named, "", al.KeyCall)
 		}
-		for i := range fi.sites {
-			s := &fi.sites[i]
-			if s.allow != 0 || s.kind == kLeak {
-				continue
+		for _, fi := range a.fns {
+			if fi != named && !(a.anchor[fi] == named && (al.Kind == "write" || al.Kind == "read" || al.Kind == "call")) {
+				continue // (C2) the named function and, for site kinds, the helpers anchored at it
 			}
-			hit := false
-			switch al.Kind {
-			case "region-after-nil-check", "region-after-lookup-miss":
-				hit = region[s.block]
-			case "call":
-				hit = s.kind == kCall && s.tgt == al.Callee
-			case "write":
-				hit = s.kind == kWrite && s.tgt == al.Loc
-			case "read":
-				hit = s.kind == kRead && s.tgt == al.Loc
-			}
-			if hit {
-				s.allow = k + 1
-				matched[k]++
+			for i := range fi.sites {
+				s := &fi.sites[i]
+				if s.allow != 0 || s.kind == kLeak {
+					continue
+				}
+				hit := false
+				switch al.Kind {
+				case "region-after-nil-check", "region-after-lookup-miss":
+					hit = region[s.block]
+				case "call":
+					hit = s.kind == kCall && s.tgt == al.Callee
+				case "write":
+					hit = s.kind == kWrite && s.tgt == al.Loc
+				case "read":
+					hit = s.kind == kRead && s.tgt == al.Loc
+				}
+				if hit {
+					s.allow = k + 1
+					matched[k]++
+				}
 			}
 		}
 	}
@@ -1111,6 +1123,7 @@ func main() {
 	}
 
 	a.priv = a.computePrivacy(pkgs)
+	a.computeEntryHeld()
 
 	goStmts := 0
 	for _, fi := range a.fns {
@@ -1134,6 +1147,7 @@ func main() {
 			}
 		}
 	}
+	a.computeAnchors()
 	matched := a.tag(&cfg)
 	refOKUsed := make([]int, len(cfg.GlobalRefsOK))
 	for _, fi := range a.fns {
